@@ -82,7 +82,7 @@ def gen_array(rng, dtype=None, n=None):
     import numpy as np
 
     dtype = dtype or rng.choice(NP_DTYPES)
-    n = rng.choice([0, 1, 2, 5, 17]) if n is None else n
+    n = rng.choice([0, 1, 2, 5, 17, 17, 900, 9000]) if n is None else n  # up to 72 KB: oversize for small caches
     if dtype == "bool":
         return np.array([rng.random() < 0.5 for _ in range(n)], dtype=dtype)
     if dtype.startswith("int"):
@@ -99,7 +99,7 @@ def gen_pandas(rng, kind=None):
     import pandas as pd
 
     kind = kind or rng.choice(["index", "series", "frame"])
-    n = rng.choice([0, 1, 3, 6])
+    n = rng.choice([0, 1, 3, 6, 6, 700])  # 700 rows: oversize for the small caches
     if kind == "index":
         c = rng.randrange(3)
         if c == 0:
@@ -110,7 +110,7 @@ def gen_pandas(rng, kind=None):
     if rng.random() < 0.5:
         idx = None
     else:
-        idx = rng.sample(range(100), n) if rng.random() < 0.5 else ["r%d" % i for i in range(n)]
+        idx = rng.sample(range(max(100, n)), n) if rng.random() < 0.5 else ["r%d" % i for i in range(n)]
     if kind == "series":
         c = rng.randrange(3)
         if c == 0:
